@@ -66,3 +66,13 @@ Require Copia.Proofs.TieDeltaV.
 Theorem C05_model_is_translation_of_source : TieDeltaV.delta_validate_model_is_translation.
 Proof. exact TieDeltaV.delta_validate_model_is_translation_holds. Qed.
 Print Assumptions C05_model_is_translation_of_source.
+
+(** [Delta.patch] - the patch function of the theorems above - is the translation of src/sync.rs `CopiaSync::patch` (both
+    profiles; premise: the delta's source size is a u64) and of src/async_sync.rs `AsyncCopiaSync::patch` (the engine of
+    `copia patch`: the unchecked model in every profile) as the source has them now: validate first, serve every Copy by
+    seek + read_exact on the basis and every Literal from its payload, hash exactly the bytes written, compare with the
+    delta's checksum when verification is on (Gen/PatchGen.v, Proofs/TiePatch.v). *)
+Require Copia.Proofs.TiePatch.
+Theorem C05_patch_is_translation_of_source : TiePatch.patch_model_is_translation.
+Proof. exact TiePatch.patch_model_is_translation_holds. Qed.
+Print Assumptions C05_patch_is_translation_of_source.
